@@ -917,7 +917,7 @@ fn no_trace(c: &mut Ctx, op: &str, already: bool) -> Result<(), String> {
             "ND" => "row-deletion-record",
             _ => "reference-deletion-record",
         };
-        c.w.violation("C02", &format!("unexplained-{kind}-stored/{op}"), format!("V stores what neither H wrote nor the adversary was entitled to: {}", &line[..line.len().min(160)]));
+        c.w.violation("C02", &format!("unexplained-{kind}-stored/{op}"), format!("V stores what neither H wrote nor the adversary was entitled to: {}", crate::kit::cut(&line, 160)));
     }
     let r1 = c.r1.0;
     let dh = oracle::dump_room(&c.w.nodes[H].oracle_conn()?, &r1)?;
@@ -925,7 +925,7 @@ fn no_trace(c: &mut Ctx, op: &str, already: bool) -> Result<(), String> {
     let vset: HashSet<String> = dvv.content_lines().into_iter().collect();
     if let Some(l) = dh.content_lines().into_iter().find(|l| !vset.contains(l) && !c.reported.contains(l)) {
         c.reported.insert(l.clone());
-        c.w.violation("C02", &format!("honest-content-missing/{op}"), format!("after an undisturbed pull V still lacks: {}", &l[..l.len().min(160)]));
+        c.w.violation("C02", &format!("honest-content-missing/{op}"), format!("after an undisturbed pull V still lacks: {}", crate::kit::cut(&l, 160)));
     }
     if c.w.nodes[V].compute_daily_log().is_ok() {
         let dvv = oracle::dump_room(&c.w.nodes[V].oracle_conn()?, &r1)?;
